@@ -14,6 +14,10 @@ ERRORS = ["", "", "1e-3", "1e-6", "1e-4"]
 def gen(rng, tier, n_quick=60, n_thorough=1500):
     n = n_quick if tier == "quick" else n_thorough
     cases = []
+    for i in range(6 if tier == "quick" else 60):
+        # loads on supported nodes, solved directly and from the .inkfempre text read back
+        s = G.gen_support_loads(rng)
+        cases.append(core.case_from_struct(s, Weight=False, Solve=True, Assemble=True, Error="", ViaPre=(i % 2 == 0)))
     for i in range(n):
         s = G.gen_solvable(rng)
         cases.append(core.case_from_struct(s, Weight=core.weights(i), Solve=True, Assemble=True, Error=ERRORS[i % len(ERRORS)],
@@ -49,7 +53,7 @@ def exact_of(c, o):
     return _exact[key]
 
 
-RULE = ("beams (cantilever, fixed-fixed, fixed-pin, pin-roller, fixed-slide) at axis-aligned and Pythagorean angles, polylines of 2-4 bars with free / pinned joints and rollers, "
+RULE = ("loads applied exactly on supported bar ends (half of them solved from the .inkfempre read back) first; beams (cantilever, fixed-fixed, fixed-pin, pin-roller, fixed-slide) at axis-aligned and Pythagorean angles, polylines of 2-4 bars with free / pinned joints and rollers, "
         "portal, A- and braced frames, pin-jointed trusses, one-cell grid frames; loads: concentrated and linear distributed forces, concentrated moments, local or global axes, full or "
         "partial spans, positions at / next to slice cuts and within 1e-10 of each other; own weight on every third; --error in {1e-5, 1e-3, 1e-4, 1e-6}. Every fourth structure is solved from its own .inkfempre text read back (the history pre -> solve-from-pre). Every structure is solved in "
         "process by the implementation; structures it refuses to solve (iteration budget) are counted as skipped. ")
